@@ -140,10 +140,19 @@ func quicOpenRaw(q *rig.QuicWorld) (*rig.WTClient, string, error) {
 		return c, "", fmt.Errorf("first message is not an open packet: %q", data)
 	}
 	var o struct {
-		Sid string `json:"sid"`
+		Sid          string   `json:"sid"`
+		Upgrades     []string `json:"upgrades"`
+		PingInterval int64    `json:"pingInterval"`
+		PingTimeout  int64    `json:"pingTimeout"`
+		MaxPayload   int64    `json:"maxPayload"`
 	}
 	if err := json.Unmarshal(data[1:], &o); err != nil || o.Sid == "" {
 		return c, "", fmt.Errorf("open packet %q: %v", data, err)
+	}
+	// C06 over real QUIC: the open packet advertises the effective configuration
+	opts := q.Eng.Opts()
+	if o.PingInterval != int64(opts.PingInterval()/time.Millisecond) || o.PingTimeout != int64(opts.PingTimeout()/time.Millisecond) || o.MaxPayload != opts.MaxHttpBufferSize() || o.Upgrades == nil || len(o.Upgrades) != 0 {
+		return c, o.Sid, fmt.Errorf("c06: open packet %s does not advertise the configuration (pingInterval %v, pingTimeout %v, maxPayload %d, upgrades [])", data[1:], opts.PingInterval(), opts.PingTimeout(), opts.MaxHttpBufferSize())
 	}
 	return c, o.Sid, nil
 }
@@ -186,7 +195,11 @@ func quicMessages(r *rep.Report, stream uint64, sessions int) {
 		rng := r.CaseRand(771+stream, i)
 		c, sid, err := quicOpen(q, app)
 		if err != nil {
-			r.Inconclusive("quic session could not be opened: " + err.Error())
+			if strings.HasPrefix(err.Error(), "c06:") {
+				r.Violationf("c06-open-packet-config", nil, "real WebTransport handshake: %v", err)
+			} else {
+				r.Inconclusive("quic session could not be opened: " + err.Error())
+			}
 			if c != nil {
 				c.Close()
 			}
